@@ -290,35 +290,51 @@ example : tileOf exTileFm 1 2 = 1 ∧ tileShift [0, -8, 0, 0] 1 = -8 ∧ fmAddr 
 
 /-- 7a. the table an operation reads is 256 B, 512 B, 1 KiB or 2 KiB for the element sizes the decoder produces, and
     a whole number of such tables fills the 2 KiB window -/
-theorem lutTableBytes_cases (b : BlockOp) (hi : b.ifm.elemBytes = 1 ∨ b.ifm.elemBytes = 2 ∨ b.ifm.elemBytes = 4)
-    (ho : b.ofm.elemBytes = 1 ∨ b.ofm.elemBytes = 2 ∨ b.ofm.elemBytes = 4) :
+theorem lutTableBytes_cases (b : BlockOp) (ho : b.ofm.elemBytes = 1 ∨ b.ofm.elemBytes = 2 ∨ b.ofm.elemBytes = 4) :
     (lutTableBytes b = 256 ∨ lutTableBytes b = 512 ∨ lutTableBytes b = 1024 ∨ lutTableBytes b = 2048) ∧
       2048 % lutTableBytes b = 0 := by
   unfold lutTableBytes
-  rcases hi with h | h | h <;> rcases ho with h' | h' | h' <;> simp [h, h']
+  split <;> rcases ho with h' | h' | h' <;> simp [h']
 
-/-- 7b. an 8-bit operation reads the 256-byte slot `li`; a 16-bit operation reads 2 KiB from the start of its slot -/
-theorem lutTableBytes_8bit (b : BlockOp) (hi : b.ifm.elemBytes = 1) (ho : b.ofm.elemBytes = 1) : lutTableBytes b = 256 := by
-  simp [lutTableBytes, hi, ho]
+/-- 7b. an operation whose activation works on 8-bit values and writes 8-bit results reads the 256-byte slot `li`; one
+    that works on 16-bit values reads 2 KiB from the start of its slot; the forced-int8 lookup with an int32 result (the
+    softmax exponent) reads 1 KiB -/
+theorem lutTableBytes_8bit (b : BlockOp) (ha : actBytes b = 1) (ho : b.ofm.elemBytes = 1) : lutTableBytes b = 256 := by
+  simp [lutTableBytes, ha, ho]
 
-theorem lutTableBytes_16bit (b : BlockOp) (hi : b.ifm.elemBytes = 2) : lutTableBytes b = 2048 := by
-  simp [lutTableBytes, hi]
+theorem lutTableBytes_16bit (b : BlockOp) (ha : actBytes b = 2) : lutTableBytes b = 2048 := by
+  simp [lutTableBytes, ha]
 
-/-- 7c. every 256-byte slot of the window lies inside the 2 KiB table a 16-bit operation placed in slot 0 reads:
+theorem lutTableBytes_forced_int8_int32 (b : BlockOp) (hc : b.activation / 4096 % 16 = 3) (ho : b.ofm.elemBytes = 4) :
+    lutTableBytes b = 1024 := by
+  simp [lutTableBytes, actBytes, hc, ho]
+
+/-- without a forced range the activation precision is the OFM precision, whatever the IFM precision is -/
+theorem actBytes_unforced (b : BlockOp) (hc : b.activation / 4096 % 16 = 0) : actBytes b = b.ofm.elemBytes := by
+  simp [actBytes, hc]
+
+/-- 7c. every 256-byte slot of the window lies inside the 2 KiB table a 16-bit lookup placed in slot 0 reads:
     the wide table overlaps *all* narrow slots, not only slot 0 -/
 theorem narrow_slot_inside_wide_table (e : Env) (b8 b16 : BlockOp) (li : Nat) (hli : li < 8)
-    (h8i : b8.ifm.elemBytes = 1) (h8o : b8.ofm.elemBytes = 1) (h16 : b16.ifm.elemBytes = 2) :
+    (h8i : actBytes b8 = 1) (h8o : b8.ofm.elemBytes = 1) (h16 : actBytes b16 = 2) :
     lutAddr e b16 0 ≤ lutAddr e b8 li ∧ lutAddr e b8 li + lutTableBytes b8 ≤ lutAddr e b16 0 + lutTableBytes b16 := by
   rw [lutAddr, lutAddr, lutTableBytes_8bit b8 h8i h8o, lutTableBytes_16bit b16 h16]
   omega
 
-/-- 7d. distinct slots of equally sized tables are disjoint -/
-theorem lut_slots_disjoint (e : Env) (b : BlockOp) (li lj : Nat) (h : li < lj) :
+/-- 7d. distinct slots of 256-byte tables are disjoint; a wider table placed at index `li` covers the slots
+    `li … li + size/256 − 1` -/
+theorem lut_slots_disjoint (e : Env) (b : BlockOp) (li lj : Nat) (h : li < lj) (ha : actBytes b = 1) (ho : b.ofm.elemBytes = 1) :
     lutAddr e b li + lutTableBytes b ≤ lutAddr e b lj := by
+  rw [lutTableBytes_8bit b ha ho]
   unfold lutAddr
-  have : (li + 1) * lutTableBytes b ≤ lj * lutTableBytes b := Nat.mul_le_mul_right _ h
-  rw [Nat.add_mul] at this
   omega
+
+theorem wide_table_covers_slots (e : Env) (bw b8 : BlockOp) (li k : Nat) (hk : (k + 1) * 256 ≤ lutTableBytes bw)
+    (ha : actBytes b8 = 1) (ho : b8.ofm.elemBytes = 1) :
+    lutAddr e bw li ≤ lutAddr e b8 (li + k) ∧ lutAddr e b8 (li + k) + lutTableBytes b8 ≤ lutAddr e bw li + lutTableBytes bw := by
+  rw [lutTableBytes_8bit b8 ha ho]
+  unfold lutAddr
+  constructor <;> omega
 
 /-- 7e. **A table load evicts every table it overlaps, whatever its size.** After a DMA of constant data into SHRAM
     (tag delta `δ`), a TABLE_LOOKUP operation whose table (slot and size from *its own* precisions) starts inside the
@@ -368,10 +384,12 @@ example : exRun [exLoad 1000 14336 256, exLoad 2000 14592 256, exLoad 4000 14336
     exLookup (exLutBlock 1) 2000 256] = [] := by decide
 example : exRun [exLoad 1000 14336 256, exLoad 2000 14592 256, exLookup (exLutBlock 1) 2000 256, exLoad 4000 14336 2048,
     exLookup exLutBlock16 4000 2048] = [] := by decide
-/-- a 16-bit operation reads 2 KiB: a window that only holds its first 256 bytes is rejected (the size comes from the
-    decoded precision, not from the side information) -/
+/-- a 16-bit lookup reads 2 KiB: a window that only holds its first 256 bytes is rejected (the size comes from the
+    decoded precision, not from the side information); the IFM precision does not matter (int8 IFM, int16 OFM: 2 KiB) -/
 example : (exRun [exLoad 4000 14336 256, exLookup exLutBlock16 4000 256]).length = 1 := by decide
-example : lutTableBytes (exLutBlock 1) = 256 ∧ lutTableBytes exLutBlock16 = 2048 ∧ lutAddr exEnv (exLutBlock 1) 1 = 14592 := by decide
+example : lutTableBytes (exLutBlock 1) = 256 ∧ lutTableBytes exLutBlock16 = 2048 ∧ lutAddr exEnv (exLutBlock 1) 1 = 14592 ∧
+    lutTableBytes { exLutBlock16 with ifm := exFm } = 2048 ∧
+    lutTableBytes { exLutBlock 1 with activation := 17 + 3 * 4096, ofm := { exFm with elemBytes := 4 } } = 1024 := by decide
 /-- the hypotheses of `table_load_evicts_overlapped_table` hold for the witness -/
 example : lutIndex (exLutBlock 1).activation = some 1 ∧ (14336 ≤ lutAddr exEnv (exLutBlock 1) 1 ∧ lutAddr exEnv (exLutBlock 1) 1 < 14336 + 2048) ∧
     0 < lutTableBytes (exLutBlock 1) ∧ (2000 : Int) - (lutAddr exEnv (exLutBlock 1) 1 : Nat) ≠ (4000 : Int) - 14336 := by decide
